@@ -177,6 +177,8 @@ def name_error_oracle(ctx, res, api, spec, payload):
         ctx.count("name_oracle", "undefined" if und else "clean")
         if und:
             kind = "types" if "/types/" in f.name else os.path.basename(f.name)
+            if all(u[0].endswith("_pb2") for u in und):       # the module of a dependency package (`status_pb2`) is used but never imported
+                kind += ":pb2-module"
             ctx.fail(f"undefined-name:{kind}", f"{f.name}:{und[0][1]}: `{und[0][0]}` is read when the module is imported but nothing binds it "
                      f"({len(und)} such read(s): {sorted({u[0] for u in und})[:6]})", payload)
 
@@ -995,7 +997,67 @@ def build_coincide(spec):
     return files, files
 
 
+# ---- API files NAMED LIKE the dependency file whose type they use ------------------------------------------------------------------
+# base name of the dependency file -> (a type it declares, "message" | "enum")
+DEP_NAMESAKES = {"status": (".google.rpc.Status", "message"), "timestamp": (".google.protobuf.Timestamp", "message"), "duration": (".google.protobuf.Duration", "message"),
+                 "field_mask": (".google.protobuf.FieldMask", "message"), "struct": (".google.protobuf.Struct", "message"), "any": (".google.protobuf.Any", "message"),
+                 "empty": (".google.protobuf.Empty", "message"), "wrappers": (".google.protobuf.StringValue", "message"),
+                 "operations": (".google.longrunning.Operation", "message"), "policy": (".google.iam.v1.Policy", "message"),
+                 "iam_policy": (".google.iam.v1.GetIamPolicyRequest", "message"), "options": (".google.iam.v1.GetPolicyOptions", "message"),
+                 "expr": (".google.type.Expr", "message"), "locations": (".google.cloud.location.Location", "message"),
+                 "launch_stage": (".google.api.LaunchStage", "enum"), "struct_enum": (".google.protobuf.NullValue", "enum")}
+DEP_USES = ["field", "repeated", "map_value", "nested_field", "oneof"]
+
+
+def dep_namesakes_available():
+    have = {d.name.split("/")[-1][:-len(".proto")]: d for d in apigen.dep_files()}
+    out = {}
+    for base, (tn, kind) in DEP_NAMESAKES.items():
+        fbase = "struct" if base == "struct_enum" else base
+        d = have.get(fbase)
+        if d is not None and tn.lstrip(".").startswith(d.package + "."):
+            out[base] = (fbase, tn, kind)
+    return out
+
+
+def depname_spec(base, where, use, tr="grpc+rest"):
+    pkg = "acme.lib.v1"
+    return {"pkg": pkg, "depname": {"base": base, "where": where, "use": use}, "dep_pkg": False, "sub": "admin" if where == "sub" else None, "service_in_sub": False,
+            "service_yaml": False, "ads": False, "files": [], "opts": [f"transport={tr}", "autogen-snippets=false"], "transport": tr.split("+")}
+
+
+def build_depname(spec):
+    """an API file called like a DEPENDENCY file (status.proto, timestamp.proto, operations.proto, ...) in the API package or in a
+    sub-package, whose message uses a type of that dependency file (`JobInfo { google.rpc.Status error }`): the emitted
+    types/<name>.py must import the dependency's `<name>_pb2` although the two modules share their base name"""
+    c = spec["depname"]
+    fbase, tn, kind = dep_namesakes_available()[c["base"]]
+    pkg = spec["pkg"]
+    fpkg = pkg + (".admin" if c["where"] == "sub" else "")
+    f = apigen.File("/".join(fpkg.split(".")) + f"/{fbase}.proto", fpkg)
+    info = f.msg("JobInfo"); info.field("name")
+    host = info
+    if c["use"] == "nested_field":
+        host = info.nested("Part"); host.field("note")
+    if c["use"] in ("field", "nested_field"):
+        host.field("item", kind, type_name=tn)
+    elif c["use"] == "repeated":
+        host.field("items", kind, repeated=True, type_name=tn)
+    elif c["use"] == "map_value":
+        host.map_field("items", "string", kind, vtype_name=tn)
+    elif c["use"] == "oneof":
+        host.field("item", kind, type_name=tn, oneof="what"); host.field("text", "string", oneof="what")
+    if host is not info:
+        info.field("part", "message", type_name=host)
+    lib = apigen.File("/".join(pkg.split(".")) + "/library.proto", pkg); lib.dep(f.name)
+    rq = lib.msg("GetJobInfoRequest"); rq.field("name", "string", 1)
+    lib.service("Library").method("GetJobInfo", rq, info, http=("get", "/v1/{name=jobs/*}"))
+    return [f, lib], [f, lib]
+
+
 def build(spec):
+    if "depname" in spec:
+        return build_depname(spec)
     if "coincide" in spec:
         return build_coincide(spec)
     if "collision" in spec:
@@ -1306,7 +1368,8 @@ def run(ctx):
                 "file — same package, sub-package, dependency package, well-known type — in exactly one way: plain/repeated/oneof/map-value field, the same "
                 "inside a nested message, LRO response/metadata, method input/output, page item, resource reference), the collision family (same-named "
                 "files in two packages of the API) and the namesake family (a nested message named like a top-level message, depth 1 or 2, using that "
-                "message's nested enum / message); distinct by spec")
+                "message's nested enum / message) and the dependency-namesake family (an API file called like the dependency file whose type it uses); "
+                "distinct by spec")
     ctx.assume("the alternative (ads) template set offers no asyncio client or transport: for it only the synchronous surface is checked")
     ctx.assume("a proto package without a version segment has no proto sub-packages (Naming.build rejects `solo` + `solo.admin`)")
     ctx.assume("Python's parser and importer are not modelled: `parses and imports` is decided by execution on every case")
@@ -1350,6 +1413,17 @@ def run(ctx):
         run_case(ctx, spec, f"coincide{k}")
         ctx.count("coincide", f"{depth}:{where}:{refs}")
         ctx.case({"coincide": [depth, where, refs]} if k < 2 else None, distinct_key=["coincide", depth, where, refs, spec["opts"][0]])
+    # an API file named like the dependency file whose type it uses (status.proto x google.rpc.Status, ...), root package and sub-package
+    rd = ctx.rng("depname")
+    alld = [(b, w, u) for b in sorted(dep_namesakes_available()) for w in ("root", "sub") for u in DEP_USES]
+    fixedd = [v for v in [("status", "root", "field"), ("timestamp", "root", "map_value"), ("operations", "sub", "field")] if v in alld]
+    restd = [v for v in alld if v not in fixedd]
+    rd.shuffle(restd)
+    for k, (base, where, use) in enumerate(fixedd + restd[:ctx.n(4, 60)]):
+        spec = depname_spec(base, where, use, tr=rd.pick(["grpc", "rest", "grpc+rest"]))
+        run_case(ctx, spec, f"depname{k}")
+        ctx.count("depname", f"{base}:{where}:{use}")
+        ctx.case({"depname": [base, where, use]} if k < 2 else None, distinct_key=["depname", base, where, use, spec["opts"][0]])
     # one file references another in exactly one way (map value, oneof member, nested field, LRO type, method input/output, ...)
     ro = ctx.rng("only-ref")
     matrix = only_ref_matrix()
